@@ -82,6 +82,12 @@ CHECKS.update({
   note="histories are enumerated by forking, payload bytes and line comparisons are the solver's; goroutines under the engine's deterministic scheduler, 'observed each step' realised by a harness waker; natively the same harness runs on a real directory with real goroutines; one payload byte per append (longer data: C15)"),
 })
 
+CHECKS.update({
+ "C11": dict(level="model_checking", ref="DESIGN.md 9 C11",
+  text="reduced scope: data races between any two of 13 operations that mtail runs concurrently on one store (datum lookup/creation, deletion, expiry marks, value updates; Store.Gc; Store.Add of a re-declared metric; Prometheus Collect, varz, graphite and push exports; FindMetricOrNil): the real code of both operations is executed by the engine in either order on a store with one metric (each value type) and two label sets while every load, store, map and atomic access to the shared pre-state is recorded with the locks held; for every conflicting pair of accesses the solver is asked for a schedule of all recorded events of both operations (program order, mutual exclusion of conflicting critical sections, reads-from between the runs) in which the two accesses are adjacent - sat is a race, replayed natively by running the two operations concurrently under the race detector",
+  note="91 pairs; not claimed: more than two concurrent operations, lost updates / stale multi-word reads that are not data races, the JSON export, the runtime's handle map; accesses of goroutines an operation starts inherit the locks the parent holds while it waits for them; cells created during an operation are not tracked"),
+})
+
 NOT_APPLICABLE = {
  "C03": "whole compiler front end on arbitrary bytes: channel-driven lexer, goyacc tables, HM unification over a pointer graph, regexp/syntax - symbolic bytes fork at every character class and reach stdlib parsers that cannot be encoded (DESIGN.md 4 C03)",
  "C17": "behaviour lives in kernel pipe/socket semantics and real goroutine interleavings; a faithful stub would re-implement net (DESIGN.md 4 C17)",
@@ -101,7 +107,6 @@ PENDING = {
  "C05": "check not built yet (planned: DESIGN.md 4 C05)",
  "C06": "check not built yet (planned: DESIGN.md 4 C06)",
  "C07": "check not built yet (planned: DESIGN.md 4 C07)",
- "C11": "check not built yet (planned, reduced scope: DESIGN.md 4 C11)",
  "C12": "check not built yet (planned: DESIGN.md 4 C12)",
  "C13": "check not built yet (planned: DESIGN.md 4 C13)",
  "C14": "check not built yet (planned: DESIGN.md 4 C14)",
